@@ -112,8 +112,9 @@ Proof.
   eapply cong_trans. { apply cong_of_eqv. apply (setdegree_eqv D OK). }
   eapply cong_trans. { apply (powmod_pos_cong kthr sthr (setdegree D U0) Hk Hsqr Hmodin). }
   eapply cong_trans.
-  { apply cong_mul. apply cong_of_eqv. unfold assign. apply (setdegree_eqv D OK).
-    apply cong_ppw. apply (mod_cong kthr sthr (setdegree D U0) Hk). }
+  { apply cong_mul.
+    - destruct e0. apply (mod_cong kthr sthr (setdegree D U0) Hk). apply cong_of_eqv. unfold assign. apply (setdegree_eqv D OK).
+    - apply cong_ppw. apply (mod_cong kthr sthr (setdegree D U0) Hk). }
   apply cong_of_eqv. rewrite ppw_pun. ring.
 Qed.
 
